@@ -1,5 +1,5 @@
 (* Properties/C05.v — pinned statements for C05 (true caller, own address, current block, attached funds). *)
-From Verif Require Import Base OMap Text Proto Bank Exec ExecFacts ExecFacts2 ExecInv ChkExec.
+From Verif Require Import Base OMap Text Proto Bank Exec ExecFacts ExecFacts2 ExecInv ChkExec ChkX ExecOracle ExecOracleS ExecOracleH.
 
 (* Every call either fails before the contract runs, or the contract is told — first thing — exactly:
    its own address = the address the call was routed to, the sender / funds / reply handed in by the
@@ -57,3 +57,27 @@ Example overdraft_example :
   [([117], 6)] <> [] /\ is_ok (bank_send (bank s) [97] [98] [([117], 6)]) = false /\
   is_ok (outc (run_msg ex_env [97] (MExec [98] (Prog 1 [] (OResp [] [] None SNil)) [([117], 5)]) s)) = true.
 Proof. vm_compute. split; [discriminate|split; reflexivity]. Qed.
+
+(* ---------- what the correspondence check relies on ---------- *)
+(* The run-time oracle p_c05 (ChkX.v, clauses 5-7: the block of the call at every depth; entry point, callee, sender and funds as the tree
+   prescribes; attached funds have arrived before the callee runs) accepts the model's own run of EVERY well-formed scenario, in every case
+   environment: an implementation that behaves exactly like the model is never flagged, and "agrees with the model"
+   implies "satisfies the oracle's reading of C05".
+   Premise [wf_scenario] (ExecOracle.v) is what the generator guarantees (harness/exec_common/src/gen.rs): in every
+   program of every call — sub-messages and reply handlers at every depth — the first action writes the marker
+   "m<node>" and no other action writes or removes the marker of any node; the markers of all the nodes of the
+   scenario are pairwise different.  [model_steps] builds the step records from the model's own run (only the block and
+   the call of each input step are used). *)
+Theorem C05_model_ok ce steps : wf_scenario steps -> c05 ce (model_steps ce steps empty_chain) = Agree.
+Proof. exact (c05_model_ok ce steps). Qed.
+Print Assumptions C05_model_ok.
+
+Example C05_model_ok_applies : wf_scenario ex_scenario /\ c05 ex_ce (model_steps ex_ce ex_scenario empty_chain) = Agree.
+Proof. exact (conj ex_scenario_wf (C05_model_ok ex_ce ex_scenario ex_scenario_wf)). Qed.
+
+(* conversely, an Agree verdict of the check means: the oracle accepted every step of what the IMPLEMENTATION did, and
+   trace, outcome and state agreed with the model at every step *)
+Theorem C05_agree_sound ce steps : c05 ce steps = Agree ->
+  oracle_steps p_c05 steps 0 = None /\ corr ce steps empty_chain 0 = None.
+Proof. exact (check_with_agree_sound p_c05 ce steps). Qed.
+Print Assumptions C05_agree_sound.
